@@ -105,36 +105,72 @@ fn compress(j: &Value, data: &[u8]) -> Res<Vec<u8>> {
     }
 }
 
-fn pull<R: Read>(r: &mut R, reads: &[usize], limit: usize) -> (Vec<u8>, Option<Err>) {
+/// What one read call shows its caller: bytes delivered (count + digest) or the kind of the error.
+fn call_result(r: Res<usize>, buf: &[u8]) -> String {
+    match r {
+        Ok(n) => format!("ok:{}:{}", n, gen::digest(&buf[..n.min(buf.len())])),
+        Err(e) => format!("err:{}", kind_name(&e)),
+    }
+}
+
+/// Number of further read calls made on a reader after the call that ended the main loop (first error, end of
+/// stream, output limit): a caller that polls again observes their results too.
+const AFTER_CALLS: usize = 4;
+
+/// The reader's observable behaviour: bytes delivered until the first error / end of stream, the first error, and the
+/// results of `AFTER_CALLS` further read calls (the read-size pattern simply continues).
+struct Pulled {
+    out: Vec<u8>,
+    err: Option<Err>,
+    after: Vec<String>,
+}
+
+fn pull<R: Read>(r: &mut R, reads: &[usize], limit: usize) -> Pulled {
     let mut out = Vec::new();
     let mut buf = vec![0u8; reads.iter().copied().max().unwrap_or(4096).max(1)];
     let mut i = 0usize;
+    let mut err = None;
     loop {
         let k = if reads.is_empty() { buf.len() } else { reads[i % reads.len()] };
         i += 1;
         match r.read(&mut buf[..k]) {
-            Ok(0) if k > 0 => return (out, None),
+            Ok(0) if k > 0 => break,
             Ok(n) => out.extend_from_slice(&buf[..n]),
-            Err(e) => return (out, Some(e)),
+            Err(e) => {
+                err = Some(e);
+                break;
+            }
         }
         if out.len() > limit || i > (1 << 24) {
-            return (out, None);
+            break;
         }
     }
+    let mut after = Vec::new();
+    for _ in 0..AFTER_CALLS {
+        let k = if reads.is_empty() { buf.len() } else { reads[i % reads.len()] };
+        i += 1;
+        let res = r.read(&mut buf[..k]);
+        after.push(format!("{}:{}", k, call_result(res, &buf[..k])));
+    }
+    Pulled { out, err, after }
 }
 
-fn decode(fmt: &str, stream: Vec<u8>, dict: u32, reads: &[usize], limit: usize) -> (Vec<u8>, Option<Err>) {
+fn no_reader(e: Err) -> Pulled {
+    Pulled { out: Vec::new(), err: Some(e), after: Vec::new() }
+}
+
+fn decode(fmt: &str, stream: Vec<u8>, dict: u32, reads: &[usize], limit: usize) -> Pulled {
     let src = Cur { v: stream, p: 0 };
     match fmt {
         "lzma2" => pull(&mut LZMA2Reader::new(src, dict, None), reads, limit),
         "xz" => pull(&mut XZReader::new(src, true), reads, limit),
         "lzip" => match LZIPReader::new(src) {
             Ok(mut r) => pull(&mut r, reads, limit),
-            Err(e) => (Vec::new(), Some(e)),
+            Err(e) => no_reader(e),
         },
         _ => match LZMAReader::new_mem_limit(src, u32::MAX, None) {
             Ok(mut r) => pull(&mut r, reads, limit),
-            Err(e) => (Vec::new(), Some(e)),
+            Err(e) => no_reader(e),
         },
     }
 }
@@ -221,16 +257,18 @@ fn dec_line(id: String, fmt: &str, stream: Vec<u8>, dict: u32, reads: &[usize], 
         }
     }
     match r {
-        Ok((out, None)) => {
-            l["dec"] = json!("ok");
-            l["n"] = json!(out.len());
-            l["out"] = json!(gen::digest(&out));
-        }
-        Ok((out, Some(e))) => {
-            l["dec"] = json!(format!("err:{}", kind_name(&e)));
-            l["n"] = json!(out.len());
-            l["out"] = json!(gen::digest(&out));
-            l["msg"] = json!(format!("{e:?}")); // diagnostic only, not compared
+        Ok(p) => {
+            match &p.err {
+                None => l["dec"] = json!("ok"),
+                Some(e) => {
+                    l["dec"] = json!(format!("err:{}", kind_name(e)));
+                    l["msg"] = json!(format!("{e:?}")); // diagnostic only, not compared
+                }
+            }
+            l["n"] = json!(p.out.len());
+            l["out"] = json!(gen::digest(&p.out));
+            // results of the read calls made after the first error / the end of the stream ("<size>:<result>")
+            l["after"] = json!(p.after);
         }
         Err(_) => {
             l["dec"] = json!("panic");
@@ -253,7 +291,16 @@ pub fn run_case(j: &Value) -> Vec<String> {
         return lines;
     }
     let d = &j["data"];
-    let data = if let Some(h) = d.get("hex").and_then(|x| x.as_str()) { gen::unhex(h) } else { gen::data(d["class"].as_str().unwrap_or("text"), gu(d, "len", 1000) as usize, gu(d, "seed", 1)) };
+    let data = if let Some(h) = d.get("hex").and_then(|x| x.as_str()) {
+        gen::unhex(h)
+    } else {
+        // `len` is the total length; an explicit tail (`tail_hex`) replaces the end of the generated class data
+        let tail = d.get("tail_hex").and_then(|x| x.as_str()).map(gen::unhex).unwrap_or_default();
+        let len = gu(d, "len", 1000) as usize;
+        let mut v = gen::data(d["class"].as_str().unwrap_or("text"), len.saturating_sub(tail.len()), gu(d, "seed", 1));
+        v.extend_from_slice(&tail[tail.len() - tail.len().min(len)..]);
+        v
+    };
     let limit = data.len() * 4 + (1 << 16);
     let comp = match catch_unwind(AssertUnwindSafe(|| compress(j, &data))) {
         Ok(Ok(c)) => c,
